@@ -46,11 +46,11 @@ structure CopyRelPost (w : World) (fl : List Nat) (src e : Ent) (w' : World) : P
 /-- **the copy**: placement of a fresh handle in the table of the live entity `src`, then the
     copy loop -/
 theorem _root_.Ark.TInv.copied {w : World} {fl : List Nat} (h : TInv w fl) {src : Ent}
-    (h2 : 2 ≤ src.id) (hnf : src.id ∉ fl) (ha : w.alive src = true)
+    (h2 : 2 ≤ src.id) (hnf : src.id ∉ fl) (ha : w.alive src = true) (hsl : src.id < w.pool.ents.length)
     (hrows : w.entities.length + 1 < 2 ^ 32) :
     ∃ (t row : Nat), w.index src.id = (t, row) ∧
       CopyRelPost w fl src (w.pool.get).2 (copiedW (placedW w t false) t row (w.tbl t).len) := by
-  obtain ⟨t, row, he, ht, _⟩ := h.link.live_entry h2 hnf ha
+  obtain ⟨t, row, he, ht, _⟩ := h.link.live_entry h2 hnf ha hsl
   refine ⟨t, row, index_of_get he, ?_⟩
   have hI := h.link.idx
   obtain ⟨hTt, hrow, hid⟩ := hI.indexed he ht
@@ -135,7 +135,8 @@ theorem _root_.Ark.TInv.copied {w : World} {fl : List Nat} (h : TInv w fl) {src 
     exact same_write pp.link.idx hw (by rw [hnewRow]; exact fun hh => hj hh.symm)
   exact
     { tinv :=
-        { rel := h.rel.of_metaStep ms (fun x hx => by rw [hal]; exact pp.aliveMono x hx)
+        { rel := h.rel.of_metaStep_in h.targetsIn ms
+            (fun x hxin hx => by rw [hal]; exact pp.aliveMono x hxin hx)
           flags := (h.flags.of_metaStep ms2 (placedW_flags_mono w t)).of_metaStep msC
             (fun _ hi => hi)
           freeEmpty := hfree3
@@ -190,11 +191,11 @@ theorem _root_.Ark.TInv.copied {w : World} {fl : List Nat} (h : TInv w fl) {src 
     an unlocked world it never fails; see `CopyRelPost` -/
 theorem opCopyEntity_rel_spec (run : ProbeRunner) {w : World} {fl : List Nat} (h : TInv w fl)
     (hl : w.isLocked = false) (hno : ∀ (evt : Nat), w.obs.hasObservers evt = false) {src : Ent}
-    (h2 : 2 ≤ src.id) (hnf : src.id ∉ fl) (ha : w.alive src = true)
+    (h2 : 2 ≤ src.id) (hnf : src.id ∉ fl) (ha : w.alive src = true) (hsl : src.id < w.pool.ents.length)
     (hrows : w.entities.length + 1 < 2 ^ 32) :
     ∃ (w' : World), opCopyEntity run src w = .ok (w.pool.get).2 w' ∧
       CopyRelPost w fl src (w.pool.get).2 w' := by
-  obtain ⟨t, row, hix, cp⟩ := h.copied h2 hnf ha hrows
+  obtain ⟨t, row, hix, cp⟩ := h.copied h2 hnf ha hsl hrows
   exact ⟨_, opCopyEntity_eq run w src hl ha hix hno, cp⟩
 
 end RelRefine2
